@@ -89,8 +89,9 @@ def kernel_shapes(tier, rnd):
               ['${', 0, '}${', 1, '}'], ['a${', 0, '}b', 1, '}c'], ['$$', 0, 1, 2], [0, '$${x}', 1],
               ['${a', 0, 'b}', 1, 2], ['x', 0, '${', 1], ['${', 0, '}', 1, '{', 2, '}']]
     if not quick:
-        shapes += [[0, 1, 2, 3, 4], ['${', 0, 1, 2, '}', 3, 4], ['$', 0, '$', 1, '{', 2, '}', 3],
-                   ['a${b}', 0, 1, '${c}', 2], ['${', 0, '}', 1, '${', 2, '}', 3]]
+        # (five symbolic characters did not finish within 40 minutes per shape: four is the thorough bound)
+        shapes += [['${', 0, 1, '}', 2, 3], ['$', 0, '$', 1, '{', 2, '}'],
+                   ['a${b}', 0, 1, '${c}', 2], ['${', 0, '}', 1, '${', 2, '}'], [0, '}', 1, '${', 2, 3]]
     return shapes
 
 
@@ -133,7 +134,7 @@ def plan(tier, seed):
                 'meta:interpolation nestings depth <= 3, comment option off, entities and braces/quotes/$ inside '
                 'expressions, $-runs, text under implicit_i18n_translate) executed against the reference with recording callables. Outside: the real '
                 'Python grammar as validator, expressions longer than the shapes, $name (braces optional) form.'
-                % (len(famK['jobs']), 4 if quick else 5, len(ent_shapes), 3 if quick else 4, len(jobs))),
+                % (len(famK['jobs']), 4, len(ent_shapes), 3 if quick else 4, len(jobs))),
         assumptions=['validator stand-in: ExpressionError iff bit len(candidate) of a symbolic mask is clear',
                      'scanner oracle from the Interpolator docstring: $$ -> $, longest validating candidate per '
                      'opening, ${} literal, unmatched ${ literal, every other character unchanged'],
